@@ -56,7 +56,7 @@ func (g *Gen) txEth(kind string, hostile bool) STx {
 
 func familyEth(family, id string, g *Gen, blocks, maxTx int) *Scenario {
 	switch family {
-	case "eth":
+	case "eth", "eth5":
 		g.Hostile = 0.1
 		return g.Mixed(id, blocks, maxTx+2, EthKinds)
 	}
